@@ -14,6 +14,7 @@ import (
 
 	"github.com/alicebob/miniredis/v2"
 	"github.com/projecteru2/core/store"
+	"github.com/projecteru2/core/store/etcdv3/embedded"
 	redisstore "github.com/projecteru2/core/store/redis"
 	coretypes "github.com/projecteru2/core/types"
 	"github.com/projecteru2/core/utils"
@@ -163,6 +164,8 @@ func TestStoreStatus(t *testing.T) {
 		mr.Close()
 	}
 	jit := vt.StartJitter()
+	pcli := embedded.NewCluster(t, be.cfg.Etcd.Prefix).RandClient()
+	jit.Probe(func() { _, _ = pcli.Get(context.Background(), "/verif-probe") }, 200*time.Millisecond)
 	defer jit.Stop()
 	// etcd: real time, VERIF_PAR sequences at a time
 	sem := make(chan struct{}, vt.EnvInt("VERIF_PAR", 64))
